@@ -6,5 +6,5 @@ d=/tmp/evalT
 rm -rf $d; mkdir -p $d
 rsync -a --exclude target /repo/ $d/repo/
 rsync -a --exclude fuzz/target --exclude .build/fuzz-run --exclude .build/logs /verif/ $d/verif/
-list="$*"; [ -z "$list" ] && list=$(seq -f "C%02g" 1 20)
+list="$*"; [ -z "$list" ] && list=$(seq -f "C%02g" 1 20 | tr "\n" " ")
 unshare -m nice -n 10 bash -c "mount --bind $d/repo /repo && mount --bind $d/verif /verif && cd /verif && mkdir -p .build/logs && for c in $list; do s=\$(date +%s); ./check \$c thorough > .build/logs/\$c.thorough.log 2>&1; e=\$?; echo \"\$c exit=\$e t=\$(( \$(date +%s)-s ))s \$(grep -E 'VIOLATION|HARNESS-ERROR|INCONCLUSIVE' .build/logs/\$c.thorough.log | head -3 | tr '\n' ' ')\" >> .build/logs/thorough.out; cp evidence/\$c.json .build/logs/\$c.thorough.evidence.json; done"
